@@ -176,3 +176,14 @@ Theorem c20_mixed_tasks_interleave : forall (conf : N -> fregs) (order : list N)
   (forall a, ~ PA a -> ~ PB a -> present s' a = present s a /\ forall x, memory s' a x = memory s a x).
 Proof. exact mixed_tasks_interleave. Qed.
 Print Assumptions c20_mixed_tasks_interleave.
+
+(* the ring pass of that theorem is the one C08 compares with real cycles on every run
+   (Net/Commute.v ring): same returned data, same device memories *)
+Theorem c20_ring_is_c08_ring : forall conf cs stations s la data,
+  NoDup stations -> length stations = length cs ->
+  (forall i a c, nth_error stations i = Some a -> nth_error cs i = Some c ->
+     present s a = true /\ conf a = c_fs c /\ forall x, memory s a x = c_mem c x) ->
+  snd (lrw_ring conf stations s la data) = snd (ring cs la data) /\
+  Forall2 (fun a m' => forall x, memory (fst (lrw_ring conf stations s la data)) a x = m' x) stations (fst (ring cs la data)).
+Proof. exact lrw_ring_is_ring. Qed.
+Print Assumptions c20_ring_is_c08_ring.
